@@ -227,6 +227,63 @@ Proof.
 Qed.
 Print Assumptions C07E_package_wf_any_history.
 
+(* ================================================================================================ 5. C08E: failing bodies *)
+Require Hdl21.Proofs.C07EProofsFail Hdl21.Proofs.C08Proofs Hdl21.Props.C08.
+Import Hdl21.Proofs.C07EProofsFail.
+
+(* 5a. A FAILING BODY IS EXACTLY A MODEL `Error`.  `fail_at d m p = Some e`: the per-module function of entry p returns
+       Error e on what the entries before p made of the written module m (and none of them failed).  After ANY history of
+       calls, a module that a call has reached holds the error e iff some entry's body fails on it with e; there is at most
+       one such entry per module (after a failure no body runs on the module again). *)
+Theorem C08E_failing_body_is_model_error ck xi d h m e : hier_design d = Ok tt -> calls_only h = true -> reached d h m ->
+  (cc_err (PM.s_content (fst (crun ck xi (cfresh d) h)) m) = Some e <-> exists p, (p < cP)%nat /\ fail_at ck xi d m p = Some e).
+Proof.
+  intros Hh Hc Hr. rewrite (proj1 (hist_content ck xi d Hh h m Hc Hr)).
+  destruct Hr as [o [t [_ [_ [A [Ht D]]]]]].
+  assert (m < Datatypes.length (d_mods d))%nat as Hm.
+  { apply (desc_lt d Hh t m); [apply (PP.all_below_spec _ _ A t Ht)|exact D]. }
+  destruct (nth_error (d_mods d) m) as [m0|] eqn:E; [|apply nth_error_None in E; lia].
+  unfold elab_mod. apply (err_at_stage ck xi d m m0 E cP e).
+Qed.
+Print Assumptions C08E_failing_body_is_model_error.
+
+Theorem C08E_one_failure_per_module ck xi d m m0 p p' e e' : nth_error (d_mods d) m = Some m0 ->
+  fail_at ck xi d m p = Some e -> fail_at ck xi d m p' = Some e' -> p = p'.
+Proof. intros Hm. exact (fail_at_unique ck xi d m m0 Hm p p' e e'). Qed.
+Print Assumptions C08E_one_failure_per_module.
+
+(* 5b. THE FAILURE POINTS of a design - the oracle `f : pass class -> module -> option error` that Model/C08PassFail.v leaves
+       abstract - are the (pass class, module) at which the concrete body returns Error *)
+Theorem C08E_failure_points ck xi d q m c : In (q, m, c) (failure_points ck xi d) <->
+  exists p e, (m < Datatypes.length (d_mods d))%nat /\ (p < cP)%nat /\ fail_at ck xi d m p = Some e /\
+              q = PM.cache_of ccaches p /\ c = err_code e.
+Proof. exact (in_failure_points_with (fun _ _ e => err_code e) ck xi d q m c). Qed.
+Print Assumptions C08E_failure_points.
+
+(* 5c. the theorems of Props/C08.v, instantiated with this oracle: for a call of elaborate / to_proto on any tops of a written
+       design, from ANY state s of the caches (whatever happened before, to whatever designs):
+       repeating a failed call reports the original error again and changes nothing; and a call on a design none of whose
+       modules differs from a fresh process's in s (R: closed under instantiation, contains the tops, s agrees with the
+       initial state on R) behaves exactly as in a fresh process - failures elsewhere do not poison it *)
+Theorem C08E_retry_reports_same_error ck xi d tops x s e :
+  snd (fst (PF.do_call PF.repaired s (ccall ck xi d tops x))) = Some e ->
+  PF.do_call PF.repaired (fst (fst (PF.do_call PF.repaired s (ccall ck xi d tops x)))) (ccall ck xi d tops x) =
+  (fst (fst (PF.do_call PF.repaired s (ccall ck xi d tops x))), Some e, []).
+Proof.
+  apply Hdl21.Props.C08.C08_same_error_again. unfold Hdl21.Proofs.C08Proofs.more_faults. repeat split; auto.
+Qed.
+Print Assumptions C08E_retry_reports_same_error.
+
+Theorem C08E_unrelated_design_as_fresh ck xi d tops x R s :
+  Hdl21.Proofs.C08Proofs.closed (PF.assoc_kids (PF.c_kids (ccall ck xi d tops x))) R ->
+  Hdl21.Proofs.C08Proofs.agree R s PF.init -> (forall t, In t tops -> R t = true) ->
+  snd (PF.do_call PF.repaired s (ccall ck xi d tops x)) = snd (PF.do_call PF.repaired PF.init (ccall ck xi d tops x)) /\
+  snd (fst (PF.do_call PF.repaired s (ccall ck xi d tops x))) = snd (fst (PF.do_call PF.repaired PF.init (ccall ck xi d tops x))).
+Proof.
+  intros HC HA HT. destruct (Hdl21.Props.C08.C08_frame_call R s PF.init (ccall ck xi d tops x) HC HA HT) as [H1 [H2 _]]. auto.
+Qed.
+Print Assumptions C08E_unrelated_design_as_fresh.
+
 (* ================================================================================================ non-vacuity *)
 Import Hdl21.Props.C01E.
 
@@ -301,3 +358,16 @@ Example C07E_ex_bodies_read_views :
   cc_err (cbody true ex_noxi 3%nat 1%nat [v [("a", 1); ("b", 1)]] top) = Some EMissing /\
   cc_err (cbody true ex_noxi 3%nat 1%nat [v [("a", 1)]] top) = None.
 Proof. vm_compute. split; reflexivity. Qed.
+
+(* C08E: the failure point of ex_bad is (ConnTypes, Top) with the error of a missing connection; the C08 machine with this oracle
+   refuses Top, reports the same error on the retry, and exports Leaf alone as a fresh process does *)
+Example C08E_ex_failure_point :
+  failure_points true ex_noxi ex_bad = [(3%nat, 1%nat, 9)] /\ failure_points false ex_noxi ex_bad = [] /\
+  fail_at true ex_noxi ex_bad 1 3 = Some EMissing /\
+  (let r1 := PF.do_call PF.repaired PF.init (ccall true ex_noxi ex_bad [1%nat] true) in
+   snd (fst r1) = Some (PF.CE 9) /\ snd r1 = [] /\
+   (let r2 := PF.do_call PF.repaired (fst (fst r1)) (ccall true ex_noxi ex_bad [1%nat] true) in
+    snd (fst r2) = Some (PF.CE 9) /\ fst (fst r2) = fst (fst r1)) /\
+   (let r3 := PF.do_call PF.repaired (fst (fst r1)) (ccall true ex_noxi ex_bad [0%nat] true) in
+    snd (fst r3) = None /\ snd r3 = [0%nat])).
+Proof. vm_compute. repeat split. Qed.
